@@ -965,7 +965,31 @@ def _result(x: Any | Future) -> Any:
 
 
 def _result_async(task: Future, loop: asyncio.AbstractEventLoop) -> asyncio.Future:
-    return asyncio.wrap_future(task, loop=loop)
+    future = loop.create_future()
+
+    def copy_state() -> None:
+        if future.done():  # pragma: no cover
+            return
+        if task.cancelled():
+            future.cancel()
+            return
+        exception = task.exception()
+        if exception is None:
+            future.set_result(task.result())
+        elif isinstance(exception, StopIteration):
+            # `asyncio.wrap_future` cannot transfer a `StopIteration`: its callback fails
+            # and whoever awaits the result waits forever. Like PEP 479, raise a
+            # `RuntimeError` that is chained to the original exception instead.
+            new_exception = RuntimeError("A function raised `StopIteration`.")
+            new_exception.__cause__ = exception
+            for note in getattr(exception, "__notes__", ()):
+                new_exception.add_note(note)
+            future.set_exception(new_exception)
+        else:
+            future.set_exception(exception)
+
+    task.add_done_callback(lambda _: loop.call_soon_threadsafe(copy_state))
+    return future
 
 
 def _to_result_dict(
